@@ -1255,9 +1255,10 @@ namespace bluetoe {
                             current_ += static_cast< std::uint8_t >( read.buffer_size );
                         }
                     }
-                    else if ( first_ && !has_error_ )
+                    else if ( !has_error_ )
                     {
-                        // the first attribute of the requested type can not be read: the request will be answered with this error
+                        // If this is the first attribute of the requested type, the request will be answered with this error.
+                        // Otherwise the attributes in front of this attribute are returned and the list ends here.
                         has_error_   = true;
                         error_       = rc;
                         error_index_ = index;
